@@ -355,3 +355,12 @@ Proof.
   destruct (Z.leb_spec x x0); [split; assumption|].
   apply interp_from_bounded; try assumption. lia.
 Qed.
+
+(* when no line of the interpolation range is absent the orbit is never consulted: every grid row is a record of the file *)
+Lemma nothing_missing rate_us plus tab ls r s :
+  missed rate_us plus tab ls = [] -> grid_row rate_us plus tab ls r = Some s -> exists k, s = FileRow k.
+Proof.
+  intros Hm H. unfold grid_row, grid_row_with in H. rewrite Hm in H. cbn [last_index] in H.
+  destruct (last_index (r + min_line rate_us tab ls) (nums ls) 0 None) as [k|]; [|discriminate].
+  injection H as <-. exists k. reflexivity.
+Qed.
